@@ -765,7 +765,7 @@ namespace BitSerializer::Convert::Utf
 			for (size_t i = 0; i < inputString.size(); ++i)
 			{
 				// Detecting UTF-32 (LE/BE)
-				if (i % sizeof(Utf32Le::char_type) == 0 && i + sizeof(Utf32Le::char_type) < inputString.size())
+				if (i % sizeof(Utf32Le::char_type) == 0 && i + sizeof(Utf32Le::char_type) <= inputString.size())
 				{
 					uint32_t rawSym;
 					std::memcpy(&rawSym, &inputString[i], sizeof rawSym);
@@ -784,7 +784,7 @@ namespace BitSerializer::Convert::Utf
 					}
 				}
 				// Detecting UTF-16 (LE/BE)
-				if (i % sizeof(Utf16Le::char_type) == 0 && i + sizeof(Utf16Le::char_type) < inputString.size())
+				if (i % sizeof(Utf16Le::char_type) == 0 && i + sizeof(Utf16Le::char_type) <= inputString.size())
 				{
 					uint16_t rawSym;
 					std::memcpy(&rawSym, &inputString[i], sizeof rawSym);
